@@ -27,7 +27,7 @@ import (
 	spb "github.com/openconfig/gribi/v1/proto/service"
 )
 
-var stepTimeout = 5 * time.Second
+
 
 type fakeModify struct {
 	grpc.ServerStream
@@ -134,7 +134,7 @@ func rpcParked(gid string) bool {
 }
 
 func waitPump(gid string) bool {
-	deadline := time.Now().Add(stepTimeout)
+	deadline := time.Now().Add(stepTO())
 	for !pumpIdle(gid) {
 		if time.Now().After(deadline) {
 			return false
@@ -215,7 +215,7 @@ func (h *SrvH) Connect(c int) error {
 	case <-f.ready:
 	case err := <-f.done:
 		return fmt.Errorf("Modify returned at once: %v", err)
-	case <-time.After(stepTimeout):
+	case <-time.After(stepTO()):
 		return errors.New("Modify did not start reading")
 	}
 	for id := range h.sessionIDs() {
@@ -238,7 +238,7 @@ func (h *SrvH) ConnectDetached() (*fakeModify, error) {
 	case <-f.ready:
 	case err := <-f.done:
 		return nil, fmt.Errorf("Modify returned at once: %v", err)
-	case <-time.After(stepTimeout):
+	case <-time.After(stepTO()):
 		return nil, errors.New("Modify did not start reading")
 	}
 	return f, nil
@@ -251,7 +251,7 @@ func (h *SrvH) SendOn(f *fakeModify, m *spb.ModifyRequest) MsgOutcome {
 	case err := <-f.done:
 		f.ended = true
 		return MsgOutcome{Ended: true, Err: err}
-	case <-time.After(stepTimeout):
+	case <-time.After(stepTO()):
 		return MsgOutcome{Hang: true}
 	}
 	return h.await(f)
@@ -271,7 +271,7 @@ func (h *SrvH) await(f *fakeModify) MsgOutcome {
 	case <-f.ready:
 		// the receive loop is back in Recv; the RPC itself may nevertheless be ending
 		// (an error was handed to it): wait until it is either parked or has returned.
-		deadline := time.Now().Add(stepTimeout)
+		deadline := time.Now().Add(stepTO())
 		for {
 			select {
 			case err := <-f.done:
@@ -291,7 +291,7 @@ func (h *SrvH) await(f *fakeModify) MsgOutcome {
 	case err := <-f.done:
 		o.Ended, o.Err = true, err
 		f.ended = true
-	case <-time.After(stepTimeout):
+	case <-time.After(stepTO()):
 		o.Hang = true
 	}
 	if !waitPump(f.gid) {
@@ -312,7 +312,7 @@ func (h *SrvH) Send(c int, m *spb.ModifyRequest) MsgOutcome {
 	case err := <-f.done:
 		f.ended = true
 		return MsgOutcome{Ended: true, Err: err}
-	case <-time.After(stepTimeout):
+	case <-time.After(stepTO()):
 		return MsgOutcome{Hang: true}
 	}
 	return h.await(f)
@@ -332,7 +332,7 @@ func (h *SrvH) Close(c int, mode string) MsgOutcome {
 		f.mu.Unlock()
 		select {
 		case f.in <- nil:
-		case <-time.After(stepTimeout):
+		case <-time.After(stepTO()):
 			return MsgOutcome{Hang: true}
 		}
 	default:
@@ -343,7 +343,7 @@ func (h *SrvH) Close(c int, mode string) MsgOutcome {
 	case err := <-f.done:
 		o.Ended, o.Err = true, err
 		f.ended = true
-	case <-time.After(stepTimeout):
+	case <-time.After(stepTO()):
 		o.Hang = true
 	}
 	if !waitPump(f.gid) {
@@ -387,7 +387,7 @@ func (h *SrvH) CutMid(c int, m *spb.ModifyRequest, j int, mode string) MsgOutcom
 	f.mu.Unlock()
 	select {
 	case f.in <- m:
-	case <-time.After(stepTimeout):
+	case <-time.After(stepTO()):
 		return MsgOutcome{Hang: true}
 	}
 	o := MsgOutcome{}
@@ -399,21 +399,21 @@ func (h *SrvH) CutMid(c int, m *spb.ModifyRequest, j int, mode string) MsgOutcom
 		// every response fitted: the batch was answered in full; the client goes away now
 		select {
 		case f.in <- nil:
-		case <-time.After(stepTimeout):
+		case <-time.After(stepTO()):
 			return MsgOutcome{Hang: true}
 		}
 		select {
 		case err := <-f.done:
 			o.Ended, o.Err = true, err
 			f.ended = true
-		case <-time.After(stepTimeout):
+		case <-time.After(stepTO()):
 			o.Hang = true
 		}
-	case <-time.After(stepTimeout):
+	case <-time.After(stepTO()):
 		o.Hang = true
 	}
 	// the receive loop may still be programming the operation it had in hand
-	for dl := time.Now().Add(stepTimeout); !readerSettled(f.gid); {
+	for dl := time.Now().Add(stepTO()); !readerSettled(f.gid); {
 		if time.Now().After(dl) {
 			o.Hang = true
 			break
@@ -477,7 +477,7 @@ func (h *SrvH) Get(req *spb.GetRequest, failAfter int) ([]*spb.GetResponse, erro
 		f.mu.Lock()
 		defer f.mu.Unlock()
 		return f.out, err, false
-	case <-time.After(stepTimeout):
+	case <-time.After(stepTO()):
 		return nil, nil, true
 	}
 }
@@ -493,7 +493,7 @@ func (h *SrvH) GetPaused(req *spb.GetRequest, after int) (stalled bool, resume f
 		stalled = true
 	case err := <-done:
 		done <- err
-	case <-time.After(stepTimeout):
+	case <-time.After(stepTO()):
 	}
 	return stalled, func() ([]*spb.GetResponse, error, bool) {
 		close(f.resume)
@@ -502,7 +502,7 @@ func (h *SrvH) GetPaused(req *spb.GetRequest, after int) (stalled bool, resume f
 			f.mu.Lock()
 			defer f.mu.Unlock()
 			return f.out, err, false
-		case <-time.After(stepTimeout):
+		case <-time.After(stepTO()):
 			return nil, nil, true
 		}
 	}
@@ -522,7 +522,7 @@ func (h *SrvH) Flush(req *spb.FlushRequest) (*spb.FlushResponse, error, bool) {
 	select {
 	case x := <-done:
 		return x.resp, x.err, false
-	case <-time.After(stepTimeout):
+	case <-time.After(stepTO()):
 		return nil, nil, true
 	}
 }
@@ -638,10 +638,10 @@ func (h *SrvH) SendLite(c int, m *spb.ModifyRequest) (*spb.ModifyResponse, bool)
 	f.mu.Unlock()
 	select {
 	case f.in <- m:
-	case <-time.After(stepTimeout):
+	case <-time.After(stepTO()):
 		return nil, false
 	}
-	deadline := time.Now().Add(stepTimeout)
+	deadline := time.Now().Add(stepTO())
 	for {
 		f.mu.Lock()
 		if len(f.out) > before {
@@ -654,7 +654,7 @@ func (h *SrvH) SendLite(c int, m *spb.ModifyRequest) (*spb.ModifyResponse, bool)
 			case <-f.done:
 				f.ended = true
 				return r, false
-			case <-time.After(stepTimeout):
+			case <-time.After(stepTO()):
 				return r, false
 			}
 			return r, true
